@@ -224,6 +224,8 @@ def run_rules(mod, ctx: Ctx, only: Optional[set[str]] = None) -> None:
             if n_il:
                 ctx.note(f"index loops rewritten as enumerate / zip (sa/canon.py C9): {n_il}")
         rep = normalise_repo(ctx.repo, ctx.keep_names)
+        if os.environ.get("SA_NO_FLAGS") != "1" and rep["inlined"]:
+            inline_test_flags_repo(ctx.repo)
         n_canon += canon_repo(ctx.repo)
         if os.environ.get("SA_NO_THREAD") != "1":
             from .canon2 import thread_none_tests_repo
@@ -357,6 +359,15 @@ def helper_names_in(mod, repo) -> frozenset:
     for fl in files:
         words |= set(re.findall(r"\b_[A-Za-z0-9_]+\b", Path(fl).read_text()))
     names = {f.name for f in repo.funcs.values()}
+    # public accessors (sa/inline.py:_is_accessor) named by a rule stay calls as well
+    from .inline import _is_accessor
+
+    acc = {f.name for f in repo.funcs.values() if _is_accessor(f)}
+    if acc:
+        allw = set()
+        for fl in files:
+            allw |= set(re.findall(r"\b[A-Za-z][A-Za-z0-9_]+\b", Path(fl).read_text()))
+        words |= allw & acc
     return frozenset(words & names)
 
 
